@@ -4,6 +4,7 @@ import IGVerif.Proofs.DenoteLeaves
 import IGVerif.Proofs.ComboMulti
 import IGVerif.Proofs.ComboNorm
 import IGVerif.Proofs.ComboContent
+import IGVerif.Proofs.ComboSharedChains
 /-! C01 — components and combinations are parsed exactly as written. -/
 namespace IGVerif.C01
 open IGVerif
@@ -141,6 +142,25 @@ theorem shared_text_directly_inside_component (sl sr : Option Str) (o : Op3) (a 
           = .res ⟨n, optPre sl ++ renderE (.comb o a b) ++ optPost sr, Combo.cNoError⟩
        ∧ Combo.toP n = denoteE [] [] (.shared sl (.comb o a b) sr) :=
   ⟨_, Combo.parse_shared_stripped sl sr o a b ha hb hsl hsr nested fuel hf, Combo.toP_shared sl sr o a b ha hb⟩
+
+/-- **Shared text around a group that holds chains**, with the component's outer parentheses
+    (`((l (a [o] b [o] c) r))`) and written directly inside them (`Cex(l (a [o] b [o] c) r)`): the
+    rewritings happen inside the group, the text around it stays, and the result is the
+    combination with every chain nested to the left carrying `l` / `r` as shared text. -/
+theorem shared_text_around_chains (sl sr : Option Str) (o : Op3) (l r : Combo.T) (hw : Combo.wf (.bin o true l r) none)
+    (hsl : ∀ t, sl = some t → Combo.SWord t) (hsr : ∀ t, sr = some t → Combo.SWord t) (nested : Bool) (fuel : Nat)
+    (hf : Combo.depth (Combo.toE (.bin o true l r)) ≤ fuel) :
+    (∃ n out, Combo.parse false fuel ('(' :: optPre sl ++ Combo.rT (.bin o true l r) ++ (optPost sr ++ [')'])) nested
+          = .res ⟨n, out, Combo.cNoError⟩
+       ∧ Combo.toP n = denoteE [] [] (.shared sl (Combo.toE (.bin o true l r)) sr))
+    ∧ (∃ n out, Combo.parse false fuel (optPre sl ++ Combo.rT (.bin o true l r) ++ optPost sr) nested
+          = .res ⟨n, out, Combo.cNoError⟩
+       ∧ Combo.toP n = denoteE [] [] (.shared sl (Combo.toE (.bin o true l r)) sr)) := by
+  have hb := Combo.wf_binw _ _ hw
+  cases hb with
+  | comb _ _ _ ha hb' =>
+    exact ⟨⟨_, _, Combo.parse_shared_chains sl sr o l r hw hsl hsr nested fuel hf, Combo.toP_shared sl sr o _ _ ha hb'⟩,
+           ⟨_, _, Combo.parse_shared_stripped_chains sl sr o l r hw hsl hsr nested fuel hf, Combo.toP_shared sl sr o _ _ ha hb'⟩⟩
 
 /-- a value without parentheses and brackets is one leaf -/
 theorem combination_parser_plain_value (t : Str) (h : Combo.Plain t) (nested : Bool) (fuel : Nat) :
